@@ -140,7 +140,8 @@ protected:
   {
     env_log(TAG_GRANT, (uint64_t)src, num, sizeof(T));
     success = env_u64(TAG_GRANT) != 0;
-    return success ? reinterpret_cast<T*>(this->base + (env_u64(TAG_GRANT) & (rlbox_vsbx<PT, LOG>::SIZE - 1))) : nullptr;
+    // a refusing backend may hand back the unchanged source pointer (success is reported separately): the core must not wrap it
+    return success ? reinterpret_cast<T*>(this->base + (env_u64(TAG_GRANT) & (rlbox_vsbx<PT, LOG>::SIZE - 1))) : src;
   }
   template<typename T>
   inline T* impl_deny_access(T* src, size_t num, bool& success)
